@@ -91,6 +91,9 @@ func (h *DBH) Reopen() error {
 }
 
 func (h *DBH) Merge() (err error) {
+	// Merge runs write transactions of its own: like RunTx it counts for the "a restarted process does not
+	// share a millisecond with its predecessor" rule of Reopen
+	defer func() { h.lastTxMs = time.Now().UnixMilli() }()
 	defer func() {
 		if r := recover(); r != nil {
 			err = fmt.Errorf("PANIC in Merge: %v at %s", r, panicSite(debug.Stack()))
